@@ -151,6 +151,19 @@ CLAIMS = {
          "RaggedArray; by-path refusal with byte snapshots); key/type tables regenerated from source.",
          "Coq proof over an executable model of descriptor validation + in-Coq differential evaluation over enumerated corruptions",
          "6.C18"),
+ 'C12': ("PARTIAL. Kernel-checked: Python's slice normalisation and the positions a slice selects for every "
+         "start/stop/step incl. negative steps and out-of-range bounds (exactly lo, lo+step, ... on the "
+         "right side of hi; always inside the axis), the size of a basic-index result; on the Sched model: "
+         "every access -- read, write, or one for which NumPy raises -- outside contexts leaves no map, "
+         "handle or user behind (C12_discipline), a write is returned by the next read and changes nothing "
+         "else (C12_write_through), reads are independent of open contexts. NOT proved (oracle / runtime): "
+         "advanced indexing, broadcasting and NumPy's error classes; survival of returned arrays after "
+         "unmapping. Tie: Index.basic_index vs NumPy on arange arrays, bounded-exhaustive over a per-axis "
+         "index alphabet (in coqc); a[idx] / a[idx]=v vs NumPy on reference copies incl. advanced indices, "
+         "returned arrays re-read after the file was truncated and deleted, /proc fd and map listings after "
+         "every access, raw file compared after every assignment.",
+         "Coq proof (partial) over models of basic indexing and of the handle protocol + in-Coq differential evaluation against NumPy",
+         "6.C12"),
  'C13': ("kernel-checked over Meta.v (keys = strings ordered as Python orders them, values opaque): the "
          "dictionary laws of the stored mapping (get-after-set, set/remove keep other keys, removed is gone), "
          "and for EVERY sequence of update/setitem/pop(with and without default)/popitem/del/mode change: "
